@@ -242,9 +242,19 @@ protected:
     }
 
     // Extracts, at least, the two first bytes because represent the VByte
-    // encoding of the prefix length
-    while ((chunk.strLen - prevLen) < 2)
+    // encoding of the prefix length (and all of it when it takes more: it is
+    // closed by the first byte with the highest bit set)
+    bool closed = false;
+    uint checked = 0;
+    for (; (checked < (chunk.strLen - prevLen)) && !closed; checked++)
+      closed = ((chunk.str[prevLen + checked] & 0x80) != 0);
+
+    while (((chunk.strLen - prevLen) < 2) || !closed) {
       end = table->processChunk(&chunk);
+
+      for (; (checked < (chunk.strLen - prevLen)) && !closed; checked++)
+        closed = ((chunk.str[prevLen + checked] & 0x80) != 0);
+    }
 
     // Appends the extracted chars before the common prefix
     uint extracted = chunk.strLen - prevLen;
